@@ -79,6 +79,11 @@ TEXT = {
                       "equal the Vecs'; reflexive, antisymmetric, transitive; Huffman Wrapped raw vs encoded for all pairs of 12 item shapes.",
                 ref="DESIGN.md §4 C15", note="Trusted: harness oracles; std's lexicographic iterator comparison is what the crate delegates to.",
                 technique="bounded harnesses (native exhaustive enumeration)"),
+    "C16": dict(level="Bounded (labelled as such), no deductive part: 17 region compositions and 3 FlatStacks (consecutive pairs over IndexOptimized; MirrorRegion<usize> over IndexOptimized / IndexList with values up to 2^33), "
+                      "history of 0..3 pushes, serde_json round trip, 4 further pushes on the original and on the restored copy: same returned indices, same reads at every issued index, same used bytes "
+                      "(deduplication and index-compression decisions), restored copy cleared and refilled like a default region. The serde derive output and the format are external / macro-generated: nothing to put under contract.",
+                ref="DESIGN.md §4 C16", note="Trusted: harness oracle; serde, serde_derive, serde_json. HuffmanContainer and CodecRegion are not serde-enabled in the crate and are outside the claim.",
+                technique="bounded harness (native exhaustive enumeration) — bounded stand-in only; contracts cannot express the property"),
     "C17": dict(level="Bounded (labelled as such). (1) For 8 vector-backed structural regions and FlatStack::merge_capacity, batches of 0..3 items, after reserve_items / reserve_regions (empty or populated target) / merge_regions, "
                       "pushing exactly the announced contents keeps every capacity reported by heap_size constant (targets: empty, one item, or filled until a storage has 0..2 spare bytes); the same for 23 (region, ReserveItems form) pairs incl. announced-by-reference / pushed-owned. (2) With a counting global allocator in the native driver: the same regions, n = 2^6 .. 2^14 items — "
                       "without pre-sizing at most storages x (log2(elements)+2) allocator calls; after pre-sizing up to 64 announced items, zero allocator calls while pushing them. "
